@@ -287,3 +287,94 @@ theorem restoresB_iff {V : Type} [DecidableEq V] (saved restored : List (String 
   simp [List.all_eq_true]
 
 end Frappy.Persist
+
+namespace Frappy.Persist
+open Frappy.Spec.C17
+set_option linter.unusedSectionVars false
+set_option linter.unusedSimpArgs false
+
+/-! ## loading -/
+
+theorem importEntry_key {N V : Type} (ps : List (Param V)) (imp : String → JV N → Option V)
+    (e : String × JV N) (r : String × V) (h : importEntry ps imp e = some r) : r.1 = e.1 := by
+  unfold importEntry at h
+  split at h
+  · split at h
+    · cases hi : imp e.1 e.2 <;> simp [hi] at h
+      rw [← h]
+    · cases h
+  · cases h
+
+theorem lookup_filterMap_absent {N V : Type} (ps : List (Param V)) (imp : String → JV N → Option V)
+    (raw : Dict N) (n : String) (h : n ∉ raw.map Prod.fst) :
+    (loadEntries ps imp raw).lookup n = none := by
+  induction raw with
+  | nil => rfl
+  | cons e rest ih =>
+    simp only [List.map_cons, List.mem_cons, not_or] at h
+    unfold loadEntries at *
+    rw [List.filterMap_cons]
+    cases hi : importEntry ps imp e with
+    | none => simpa using ih h.2
+    | some r =>
+      have hk := importEntry_key ps imp e r hi
+      obtain ⟨rk, rv⟩ := r
+      simp only at hk
+      have : (n == rk) = false := by rw [hk]; simpa using h.1
+      simp only [List.lookup_cons, this]; exact ih h.2
+
+/-- looking a name up in what was loaded = looking it up in the file and importing that entry
+(the decoded file is a Python dict: its keys are distinct) -/
+theorem lookup_loadEntries {N V : Type} (ps : List (Param V)) (imp : String → JV N → Option V)
+    (raw : Dict N) (hk : (raw.map Prod.fst).Nodup) (n : String) :
+    (loadEntries ps imp raw).lookup n =
+      (raw.lookup n).bind (fun j => (importEntry ps imp (n, j)).map Prod.snd) := by
+  induction raw with
+  | nil => rfl
+  | cons e rest ih =>
+    obtain ⟨k, j⟩ := e
+    simp only [List.map_cons, List.nodup_cons] at hk
+    by_cases hkn : n = k
+    · subst hkn
+      have hrest := lookup_filterMap_absent ps imp rest n hk.1
+      unfold loadEntries at *
+      rw [List.filterMap_cons]
+      simp only [List.lookup_cons, beq_self_eq_true, Option.bind_some]
+      cases hi : importEntry ps imp (n, j) with
+      | none => simpa using hrest
+      | some r =>
+        have := importEntry_key ps imp (n, j) r hi
+        obtain ⟨rk, rv⟩ := r
+        simp only at this
+        simp [List.lookup_cons, this]
+    · have hb : (n == k) = false := by simpa using hkn
+      unfold loadEntries at *
+      rw [List.filterMap_cons]
+      simp only [List.lookup_cons, hb]
+      cases hi : importEntry ps imp (k, j) with
+      | none => simpa using ih hk.2
+      | some r =>
+        have := importEntry_key ps imp (k, j) r hi
+        obtain ⟨rk, rv⟩ := r
+        simp only at this
+        simp only [List.lookup_cons, this, hb]
+        exact ih hk.2
+
+theorem findParam_of_mem {V : Type} (ps : List (Param V)) (hn : (ps.map (·.name)).Nodup) (p : Param V)
+    (hp : p ∈ ps) : findParam ps p.name = some p := by
+  induction ps with
+  | nil => cases hp
+  | cons q rest ih =>
+    simp only [List.map_cons, List.nodup_cons] at hn
+    unfold findParam
+    rw [List.find?_cons]
+    rcases List.mem_cons.1 hp with rfl | hr
+    · simp
+    · have : (q.name == p.name) = false := by
+        simp only [beq_eq_false_iff_ne, ne_eq]
+        intro h
+        exact hn.1 (h ▸ List.mem_map_of_mem hr)
+      simp only [this]
+      exact ih hn.2 hr
+
+end Frappy.Persist
